@@ -266,6 +266,10 @@ def body_cls(rec, c):
         classes=["classify", "classify:on-interface" if on_intf else "classify:off"],
         sample={"op": "classify", **c} if on_intf and len(o) < 6 else None,
     )
+    # a path without frames (what empty_path() returns before anything is appended) classifies as nothing crossed
+    ep = path.empty_path()
+    rec.check(tuple(ep.check_interfaces(c["intf"])[:3]) == (None, None, "*") and [bool(x) for x in ep.check_interfaces(c["intf"])[3]] == [False, False, False],
+              "cls:empty-path", f"{ep.check_interfaces(c['intf'])}")
     mn, mx = min(o), max(o)
     rec.check(path.ordermin[0] == mn and o[int(path.ordermin[1])] == mn, "cls:ordermin")
     rec.check(path.ordermax[0] == mx and o[int(path.ordermax[1])] == mx, "cls:ordermax")
